@@ -1,6 +1,8 @@
 import NibabelModel.Lemmas.C10
 import NibabelModel.Lemmas.C10_Checks
 import NibabelModel.Lemmas.C10_Gen
+import NibabelModel.Lemmas.C10_Glue5
+import NibabelModel.Lemmas.C10_FromHdr
 /-! Props/C10 — property theorems for C10 (binary headers are faithful to their bytes, byte order and
     repairs).  Part A: byte codec and record codec over EVERY tiling layout; part B: WrapStruct
     operations; part C: endianness guessing; part D: check batteries; part E: obligations over the
@@ -440,6 +442,117 @@ theorem second_run_offset_bitpix (c : ClsSpec) (hc : c.ok = true) (h : CF) :
 
 example : Gen.nifti2Cls.ok = true := by decide +kernel
 
+/-! ### D''. the battery on the header BYTES (`checkFixBytes`: parse the checked fields out of the bytes
+    with the layout, run the battery on the record, write the repaired fields back)
+
+  Generic over every class `c` and layout `L` with `compat c L` (decidable: the layout tiles with distinct
+  names, every check of the battery finds the field it repairs, checked fields have the expected item
+  counts, every constant a repair writes is representable in its field); `compat` is then decided for
+  every class of the working tree (`checkFixBytes_generated`). -/
+
+/-- everything the byte-level statements need, in one place -/
+theorem checkFixBytes_core (c : ClsSpec) (L : Layout) (hc : compat c L = true) (e : Endian)
+    (bs : List Byte) (hl : bs.length = L.size) :
+    valsOk L.fields (parse L e bs) = true ∧
+    valsOk L.fields (writeCF L (parse L e bs) (fixAll c c.checks (readCF L (parse L e bs)))) = true ∧
+    (checkFixBytes c L e bs).1 = serialize L e (writeCF L (parse L e bs) (fixAll c c.checks (readCF L (parse L e bs)))) ∧
+    parse L e (checkFixBytes c L e bs).1 = writeCF L (parse L e bs) (fixAll c c.checks (readCF L (parse L e bs))) ∧
+    ((checkFixBytes c L e bs).1).length = L.size ∧
+    readCF L (parse L e (checkFixBytes c L e bs).1) = fixAll c c.checks (readCF L (parse L e bs)) := by
+  have C := compat_spec hc
+  have hv : valsOk L.fields (parse L e bs) = true := ofBytes_ok L C.wf e bs hl
+  have hfit := fixAll_fits c L C c.checks (fun _ h => h) _ (readCF_fits c L C _ hv)
+  have hW := valsOk_writeCF c L C _ hv _ hfit
+  have hout : (checkFixBytes c L e bs).1 =
+      serialize L e (writeCF L (parse L e bs) (fixAll c c.checks (readCF L (parse L e bs)))) := by
+    simp only [checkFixBytes, runFix_fst]
+  have hp := fields_roundtrip L C.wf e _ hW
+  have hlen : ((checkFixBytes c L e bs).1).length = L.size := by
+    rw [hout]; exact binaryblock_length L C.wf ⟨e, _⟩ hW
+  refine ⟨hv, hW, hout, by rw [hout, hp], hlen, ?_⟩
+  rw [hout, hp]
+  exact readCF_writeCF L _ hv _ hfit (fixAll_agrees c L C _)
+
+/-- Parsing the output of the byte-level battery yields `runFix` of the parsed record, and the reports
+    are those of `runFix`: the record-level theorems of part D speak about the bytes. -/
+theorem checkFixBytes_parse (c : ClsSpec) (L : Layout) (hc : compat c L = true) (e : Endian)
+    (bs : List Byte) (hl : bs.length = L.size) :
+    readCF L (parse L e (checkFixBytes c L e bs).1) = (runFix c c.checks (readCF L (parse L e bs))).1 ∧
+    (checkFixBytes c L e bs).2 = (runFix c c.checks (readCF L (parse L e bs))).2 ∧
+    ((checkFixBytes c L e bs).1).length = L.size := by
+  have h := checkFixBytes_core c L hc e bs hl
+  exact ⟨by rw [runFix_fst]; exact h.2.2.2.2.2, rfl, h.2.2.2.2.1⟩
+
+set_option linter.unusedVariables false in
+/-- `check_fix` twice gives the same BYTES as `check_fix` once (for a header on which the checks do
+    not raise, see `raises`). -/
+theorem checkFixBytes_idempotent (c : ClsSpec) (L : Layout) (hc : compat c L = true) (e : Endian)
+    (bs : List Byte) (hl : bs.length = L.size) (hdef : raisesBytes c L e bs = false) :
+    (checkFixBytes c L e (checkFixBytes c L e bs).1).1 = (checkFixBytes c L e bs).1 := by
+  have C := compat_spec hc
+  have h1 := checkFixBytes_core c L hc e bs hl
+  have h2 := checkFixBytes_core c L hc e _ h1.2.2.2.2.1
+  rw [h2.2.2.1, h1.2.2.2.2.2, fixAll_idem c C.fmt]
+  -- writing back what was just read
+  have hre : fixAll c c.checks (readCF L (parse L e bs)) = readCF L (parse L e (checkFixBytes c L e bs).1) :=
+    h1.2.2.2.2.2.symm
+  rw [hre, writeCF_readCF c L C _ h2.1]
+  exact bytes_roundtrip L C.wf e _ h1.2.2.2.2.1
+
+set_option linter.unusedVariables false in
+/-- When no check reports a problem the BYTES are unchanged. -/
+theorem checkFixBytes_noop (c : ClsSpec) (L : Layout) (hc : compat c L = true) (e : Endian)
+    (bs : List Byte) (hl : bs.length = L.size) (hdef : raisesBytes c L e bs = false)
+    (hr : ∀ r ∈ (checkFixBytes c L e bs).2, r.level = 0) : (checkFixBytes c L e bs).1 = bs := by
+  have C := compat_spec hc
+  have h1 := checkFixBytes_core c L hc e bs hl
+  have hno : fixAll c c.checks (readCF L (parse L e bs)) = readCF L (parse L e bs) :=
+    fixAll_noop c c.checks _ hr
+  rw [h1.2.2.1, hno, writeCF_readCF c L C _ h1.1]
+  exact bytes_roundtrip L C.wf e bs hl
+
+/-- `check_fix` touches ONLY the bytes of the fields its battery may repair: every other field of the
+    layout — whatever its name — has exactly the bytes it had. -/
+theorem checkFixBytes_untouched (c : ClsSpec) (L : Layout) (hc : compat c L = true) (e : Endian)
+    (bs : List Byte) (hl : bs.length = L.size) (f : Field) (hf : f ∈ L.fields)
+    (hn : f.name ∉ repairable c) :
+    ((checkFixBytes c L e bs).1.drop f.offset).take f.nbytes = (bs.drop f.offset).take f.nbytes := by
+  have C := compat_spec hc
+  have h1 := checkFixBytes_core c L hc e bs hl
+  have hb := tiles_mem_bound C.wf f hf
+  have hnd : (L.fields.map (·.name)).Nodup := by simpa [namesDistinct] using C.names
+  apply field_bytes_eq f e _ _ (by rw [h1.2.2.2.2.1]; exact hb) (by rw [hl]; exact hb)
+  have g1 := getRawFs_parseFs L.fields e (checkFixBytes c L e bs).1 f hf hnd
+  have g2 := getRawFs_parseFs L.fields e bs f hf hnd
+  rw [← g1, ← g2]
+  show getRaw L (parse L e (checkFixBytes c L e bs).1) f.name = getRaw L (parse L e bs) f.name
+  rw [h1.2.2.2.1]
+  apply getRaw_writeCF_same c L C _ h1.1
+  intro _
+  apply slotView_fixAll
+  intro k hk hks
+  exact hn (List.mem_filterMap.mpr ⟨k, hk, hks⟩)
+
+/-- `compat` holds for every header class of the working tree with its regenerated layout, so the four
+    statements above hold for Analyze, SPM99, SPM2, NIfTI-1 (single/pair), NIfTI-2 (single/pair), MGH, ECAT. -/
+theorem checkFixBytes_generated :
+    ∀ c ∈ Gen.classes, ∃ L, Gen.layoutOf? c.layout = some L ∧ compat c L = true := by
+  intro c hc
+  have h : ∀ c ∈ Gen.classes, (match Gen.layoutOf? c.layout with
+      | some L => compat c L
+      | none => false) = true := by decide +kernel
+  have := h c hc
+  cases hL : Gen.layoutOf? c.layout with
+  | none => simp [hL] at this
+  | some L => exact ⟨L, rfl, by simpa [hL] using this⟩
+
+example : raisesBytes Gen.nifti1Cls Gen.nifti1 .le (List.replicate 348 0) = false ∧
+    (List.replicate 348 (0 : Byte)).length = Gen.nifti1.size := by decide +kernel
+
+example : compat Gen.nifti2Cls Gen.nifti2 = true ∧ repairable Gen.nifti2Cls =
+    ["sizeof_hdr", "bitpix", "pixdim", "pixdim", "vox_offset", "qform_code", "sform_code", "eol_check"] := by
+  decide +kernel
+
 /-! ### D'. from_header (dim / pixdim part only; the rest is checked by the oracle on the real code) -/
 
 /-- `from_header` preserves the zooms (pixdim[1..ndim]) and qfac (pixdim[0]) bit for bit. -/
@@ -472,6 +585,58 @@ theorem from_header_pixdim_beyond_ndim_counterexample :
     fromHeaderPix fmt32 2 [0x3F800000, 0x40000000, 0x3FC00000, 0x40500000, 0x3F800000, 0x3F800000, 0x3F800000, 0x3F800000]
       ≠ [0x3F800000, 0x40000000, 0x3FC00000, 0x40500000, 0x3F800000, 0x3F800000, 0x3F800000, 0x3F800000] := by
   decide
+
+/-! ### D'''. from_header on ALL fields
+
+  `fromHeaderVals` models `klass.from_header(src, check=False)` for a source of another class over
+  arbitrary source/target layouts; `cast` (NumPy's assignment cast between two field types) and `g` (the
+  values the setters compute) are arbitrary.  The theorem says EXACTLY where every target field comes from:
+  * a field named in `overwrittenSlots` (datatype, bitpix, dim, pixdim; magic for NIfTI targets) holds
+    what the setters wrote (`from_header_preserves_zooms` / the open finding describe pixdim);
+  * any other field with a same-named, assignable source field holds the cast of the source value —
+    preserved;
+  * any other field keeps the target default. -/
+theorem from_header_preserves (cast : Field → Field → List Nat → List Nat) (Ls Ld : Layout)
+    (niftiTarget : Bool) (src dflt : List (List Nat)) (g : String → List Nat)
+    (hnS : namesDistinct Ls = true) (hs : src.length = Ls.fields.length)
+    (hd : dflt.length = Ld.fields.length) (fd : Field) (hfd : findFs Ld.fields fd.name = some fd) :
+    match provOf Ls niftiTarget fd with
+    | .overwritten => getRaw Ld (fromHeaderVals cast Ls Ld niftiTarget src dflt g) fd.name = g fd.name
+    | .copied => ∃ fs, findFs Ls.fields fd.name = some fs ∧
+        getRaw Ld (fromHeaderVals cast Ls Ld niftiTarget src dflt g) fd.name = cast fs fd (getRaw Ls src fd.name)
+    | .default => getRaw Ld (fromHeaderVals cast Ls Ld niftiTarget src dflt g) fd.name = getRaw Ld dflt fd.name := by
+  have hnd : (Ls.fields.map (·.name)).Nodup := by simpa [namesDistinct] using hnS
+  have hov : (overwrittenSlots niftiTarget).Nodup := by cases niftiTarget <;> decide
+  unfold provOf
+  by_cases ho : fd.name ∈ overwrittenSlots niftiTarget
+  · simp only [ho, if_true]
+    exact getRaw_setSlots_in Ld _ _ g fd.name hov ho (by rw [copyFs_length]; exact hd) fd hfd
+  · simp only [ho, if_false]
+    have hget : getRaw Ld (fromHeaderVals cast Ls Ld niftiTarget src dflt g) fd.name
+        = copiedVal cast Ld Ls.fields src dflt fd.name := by
+      unfold fromHeaderVals
+      rw [getRaw_setSlots_notin Ld _ _ g fd.name ho]
+      exact copyFs_get cast Ld Ls.fields src dflt fd.name hnd hd hs
+    cases hfs : findFs Ls.fields fd.name with
+    | none => simp only []; rw [hget]; simp [copiedVal, hfs]
+    | some fs =>
+      simp only []
+      by_cases hc : castable fs fd = true
+      · simp only [hc, if_true]
+        exact ⟨fs, rfl, by rw [hget]; simp [copiedVal, hfs, hfd, hc, getRaw]⟩
+      · simp only [hc, if_false]
+        rw [hget]; simp [copiedVal, hfs, hfd, hc]
+
+example : provOf Gen.nifti1 true ⟨"descrip", 240, 80, 1, .bytes⟩ = .copied ∧
+    provOf Gen.nifti1 true ⟨"eol_check", 8, 1, 4, .int⟩ = .default ∧
+    provOf Gen.nifti1 true ⟨"pixdim", 104, 8, 8, .float⟩ = .overwritten := by decide +kernel
+
+/-- Over the regenerated layouts of the Analyze family: every same-named pair of fields is assignable
+    (same bytes/numeric class and item count), so between any two classes EVERY same-named field other
+    than the overwritten ones is `copied`; and the names are distinct as the theorem requires. -/
+theorem from_header_fields_castable :
+    ∀ s ∈ familyLayouts, ∀ d ∈ familyLayouts, allCastable s.1 d.1 = true ∧ namesDistinct s.1 = true := by
+  decide +kernel
 
 /-! ### E. obligations over the regenerated tables -/
 
